@@ -411,8 +411,8 @@ def gen_combination(rng, ps):
 
 
 AMOUNT_NAMES = ["amount.worker.vcpu", "amount.worker.memory", "amount.worker.gpu", "amount.worker.gpu.memory", "amount.worker.disk.scratch",
-                "amount.custom", "vendor:amount.licenses.nuke", "ab:amount.x_1", "AMOUNT.Worker.VCPU", "amount._a"]
-ATTR_NAMES = ["attr.worker.os.family", "attr.worker.cpu.arch", "attr.custom", "vendor:attr.software.name", "attr.a.b.c", "ATTR.Worker.OS.Family"]
+                "amount.custom", "vendor:amount.licenses.nuke", "ab:amount.x_1", "AMOUNT.Worker.VCPU", "amount._a", "amount.jobslots", "acme:amount.steps_2", "amount.workers"]
+ATTR_NAMES = ["attr.worker.os.family", "attr.worker.cpu.arch", "attr.custom", "vendor:attr.software.name", "attr.a.b.c", "ATTR.Worker.OS.Family", "attr.jobtype", "attr.tasks.kind"]
 
 
 def gen_host_req(rng, tmpl_syms):
